@@ -23,7 +23,7 @@ RULE = ("(a) a battery of several hundred queries over notes, intervals, keys, c
         "class defaults must be unchanged; copies of notes and containers are operated on in both directions. Non-trivial: a history "
         "that mutates a returned list and later queries the same function; a call with a non-empty mutable argument; a script with "
         ">= 2 mutating operations."
-        ' Also: the battery contains every public function of the theory modules (introspection), confusable neighbours and keyword forms; histories repeat a query before modifying its last answer; every memo table that is empty at import is cleared per case; a systematic pass modifies the answer of each battery query and re-asks its neighbourhood; fft.find_notes call sequences; notes handed out by registered tunings are modified.')
+        ' Also: the battery contains every public function of the theory modules (introspection), confusable neighbours and keyword forms; histories repeat a query before modifying its last answer; every memo table that is empty at import is cleared per case; a systematic pass modifies the answer of each battery query and re-asks its neighbourhood; fft.find_notes call sequences whose returned notes are modified between calls; in-place edits of the lists / dictionaries that instances hold (incl. the percussion key map); frequency lookups at and above the top of the table; notes handed out by registered tunings are modified.')
 ASSUMPTIONS = ["known memo tables are cleared at the start of every case so that a failing history replays from a cold start",
                "intervals.invert may reverse in place and back: the argument must be unchanged after the call",
                "Instrument.set_range and chords.from_shorthand's internal second parameter are outside the battery",
@@ -359,6 +359,10 @@ def check_find_notes(ctx, calls):
                 ok = ok and abs(amp - exp[x]) <= 1e-9 * max(1.0, abs(exp[x])) and ((note is None) if x == 128 else (note is not None and int(note) == x))
         ctx.check(ok, "fft/find_notes", lambda: "call %d of %r: amplitudes %r, expected %r" % (
             k, calls, [(i, a) for i, (n_, a) in enumerate(r) if a][:6] if isinstance(r, list) else r, [(i, a) for i, a in enumerate(exp) if a][:6]))
+        if ok:  # the returned notes belong to the caller: changing them must not show in the next answer
+            for x, (note, amp) in enumerate(r):
+                if note is not None and (amp or x % 16 == k % 16):
+                    [note.octave_up, note.augment, lambda note=note: note.from_int(5), note.diminish][(x + k) % 4]()
     ctx.note_case(len(calls) >= 2, ["find_notes:%d-calls" % min(len(calls), 6)])
 
 
@@ -473,7 +477,8 @@ def _observe(obj):
     if isinstance(obj, Suite):
         return ["Suite", obj.title, obj.subtitle, obj.author, obj.email, obj.description, [_observe(c) for c in obj.compositions]]
     if isinstance(obj, Instrument):
-        return ["Instr", type(obj).__name__, obj.name, [_observe(obj.range[0]), _observe(obj.range[1])], obj.clef, getattr(obj, "instrument_nr", None)]
+        return ["Instr", type(obj).__name__, obj.name, [_observe(obj.range[0]), _observe(obj.range[1])], obj.clef, getattr(obj, "instrument_nr", None),
+                _observe(getattr(obj, "mapping", None))]
     if isinstance(obj, MidiTrack):
         return ["MidiTrack", obj.track_data, obj.delta_time, obj.delay, obj.bpm, obj.change_instrument, obj.instrument]
     if isinstance(obj, MidiFile):
@@ -489,7 +494,7 @@ def _class_defaults(cls):
 
 def _factories():
     from mingus.containers import Bar, Composition, Note, NoteContainer, Suite, Track
-    from mingus.containers.instrument import Guitar, Instrument, MidiInstrument, Piano
+    from mingus.containers.instrument import Guitar, Instrument, MidiInstrument, MidiPercussionInstrument, Piano
     from mingus.midi.midi_file_out import MidiFile
     from mingus.midi.midi_track import MidiTrack
     from mingus.midi.sequencer import Sequencer
@@ -509,21 +514,23 @@ def _factories():
             lambda o: o.set_velocity(1), lambda o: o.set_channel(15), lambda o: o.change_octave(-2), lambda o: o.from_hertz(880), lambda o: o.empty()]),
         "NoteContainer": (NoteContainer, lambda: NoteContainer(), [
             lambda o: o.add_note("C"), lambda o: o.add_notes(["E", "G-5"]), lambda o: o + Note("B", 3), lambda o: o.from_chord("Am7"),
-            lambda o: o.remove_note("C"), lambda o: o.augment(), lambda o: o.transpose("3"), lambda o: o.from_progression("V7", "D"), lambda o: o.empty()]),
+            lambda o: o.remove_note("C"), lambda o: o.augment(), lambda o: o.transpose("3"), lambda o: o.from_progression("V7", "D"), lambda o: o.empty(),
+            lambda o: o.notes.append(Note("D", 6))]),
         "Bar": (Bar, lambda: Bar(), [
             lambda o: o.place_notes("C-4", 4), lambda o: o.place_rest(8), lambda o: o + ["E-4", "G-4"], lambda o: o.set_meter((6, 8)),
             lambda o: o.transpose("2") if o.bar else None, lambda o: o.remove_last_entry() if o.bar else None, lambda o: o.empty(),
-            lambda o: o.__setitem__(0, "A-3") if o.bar else None]),
+            lambda o: o.__setitem__(0, "A-3") if o.bar else None, lambda o: o.bar.append([0.0, 4, None])]),
         "Track": (Track, lambda: Track(), [
             lambda o: o.add_notes("C-4", 4), lambda o: o.add_notes(None, 2), lambda o: o + "E-4", lambda o: o.add_bar(bar_with()),
             lambda o: o.from_chords(["C", "G7"], 2), lambda o: o.augment(), lambda o: setattr(o, "name", "changed"),
-            lambda o: o.set_tuning("x"), lambda o: o.transpose("4", False)]),
+            lambda o: o.set_tuning("x"), lambda o: o.transpose("4", False), lambda o: o.bars.append(bar_with())]),
         "Composition": (Composition, lambda: Composition(), [
             lambda o: o.add_track(track_with()), lambda o: o + Track(), lambda o: o.set_title("T", "S"), lambda o: o.set_author("A", "e@x"),
-            lambda o: o.add_note("C-5") if o.tracks else None, lambda o: setattr(o, "selected_tracks", [0]) if o.tracks else None, lambda o: o.empty()]),
+            lambda o: o.add_note("C-5") if o.tracks else None, lambda o: setattr(o, "selected_tracks", [0]) if o.tracks else None, lambda o: o.empty(),
+            lambda o: o.tracks.append(track_with()), lambda o: o.selected_tracks.append(0)]),
         "Suite": (Suite, lambda: Suite(), [
             lambda o: o.add_composition(Composition()), lambda o: o + Composition(), lambda o: o.set_title("T", "S"), lambda o: o.set_author("A", "m"),
-            lambda o: o.__setitem__(0, Composition()) if len(o) else None]),
+            lambda o: o.__setitem__(0, Composition()) if len(o) else None, lambda o: o.compositions.append(Composition())]),
         "Instrument": (Instrument, lambda: Instrument(), [
             lambda o: o.set_range((Note("C", 2), Note("C", 5))), lambda o: setattr(o, "name", "other"), lambda o: setattr(o, "clef", "tenor"),
             lambda o: o.can_play_notes(["C-4"])]),
@@ -531,6 +538,9 @@ def _factories():
         "Guitar": (Guitar, lambda: Guitar(), [lambda o: o.set_range((Note("E", 2), Note("E", 6))), lambda o: setattr(o, "tuning", "x")]),
         "MidiInstrument": (MidiInstrument, lambda: MidiInstrument(), [lambda o: setattr(o, "instrument_nr", 40), lambda o: setattr(o, "name", "Violin"),
                                                                       lambda o: o.set_range((Note("G", 3), Note("C", 8)))]),
+        "MidiPercussionInstrument": (MidiPercussionInstrument, lambda: MidiPercussionInstrument(), [
+            lambda o: o.mapping.__setitem__(35, "Kick"), lambda o: o.mapping.pop(81), lambda o: o.mapping.clear(), lambda o: setattr(o, "name", "Kit"),
+            lambda o: o.set_range((Note("C", 2), Note("C", 5)))]),
         "MidiTrack": (MidiTrack, lambda: MidiTrack(100), [
             lambda o: o.play_Note(Note("C", 4)), lambda o: o.play_Bar(bar_with()), lambda o: o.play_Track(track_with()), lambda o: o.set_tempo(90),
             lambda o: o.set_deltatime(5), lambda o: o.set_instrument(2, 30), lambda o: o.set_key("Eb"), lambda o: o.reset()]),
@@ -538,7 +548,7 @@ def _factories():
             lambda o: o.tracks.append(MidiTrack(120)), lambda o: o.get_midi_data(), lambda o: o.reset(), lambda o: setattr(o, "time_division", b"\x00\x60")]),
         "Sequencer": (Sequencer, lambda: Sequencer(), [
             lambda o: o.attach(object()), lambda o: o.play_Note(Note("C", 4)), lambda o: o.play_Bar(bar_with()), lambda o: o.control_change(1, 7, 100),
-            lambda o: o.set_instrument(1, 5), lambda o: o.detach(o.listeners[0]) if o.listeners else None]),
+            lambda o: o.set_instrument(1, 5), lambda o: o.detach(o.listeners[0]) if o.listeners else None, lambda o: o.listeners.append(object())]),
     }
 
 
